@@ -16,13 +16,17 @@ func propC08() Property {
 		ID: "C08",
 		Explanation: "Typestate rules. R1: every call that flushes the send queue to the connection is (a) under IsLoggedOn()=true, or (b) the drop-and-send role whose message, at every caller, is built with MsgType \"A\" or \"5\" (Logon/Logout), or (c) the raw-enqueue role whose callers pass only replayed bytes or a SequenceReset; the not-logged-on arm of the queue flusher only drops. " +
 			"R2: in the logon state every call that can reach an application callback or a send is dominated by MsgType == Logon. R3: stateMachine.State has exactly two writers (the transition function and Start); OnLogout and OnLogon are each invoked from exactly one function; the OnLogout function is reached only from the transition function under cur.IsConnected ∧ ¬next.IsConnected (or the connect-outside-session-time arm), and where it can be re-entered through its own callees the call is protected by a re-entrancy flag set before and cleared after. " +
-			"R4: every channel send to the connection is in a function that first tests messageOut != nil; every close(messageOut) is followed on all paths by messageOut = nil.",
+			"R4: every channel send to the connection is in a function that first tests messageOut != nil; every close(messageOut) is followed on all paths by messageOut = nil. " +
+			"R5: in the disconnect handler the reads of the state that decide OnLogout, and the OnLogout call itself, come before any call that can re-enter inbound processing (the drain of buffered messages), which may change the state. " +
+			"R6: a logged-on state that delegates an inbound message to the in-session handler (the recovery state) returns itself only when the delegate's result is still logged on: when the engine has sent its Logout (logout state) or disconnected, the wrapper must not put the session back into a logged-on state.",
 		NotDecided: "'exactly one' as a count over event histories (R3 shows a unique guarded, non-re-entrant site, not a trace count); delivery to the application outside logon (C06 decides the gate).",
 		Rules: []RuleDef{
 			{ID: "C08-R1", Desc: "wire sends only when logged on / Logon-Logout / replay", Min: 4, Run: c08R1},
 			{ID: "C08-R2", Desc: "logon state handles only Logon", Min: 1, Run: c08R2},
 			{ID: "C08-R3", Desc: "single state writer; single, guarded, non-re-entrant OnLogout/OnLogon site", Min: 5, Run: c08R3},
 			{ID: "C08-R4", Desc: "nothing written after disconnect", Min: 3, Run: c08R4},
+			{ID: "C08-R5", Desc: "logout decision taken before buffered input is drained", Min: 1, Run: c08R5},
+			{ID: "C08-R6", Desc: "a logged-on wrapper state never survives its delegate leaving the logged-on set", Min: 2, Run: c08R6},
 		},
 	}
 }
@@ -467,4 +471,155 @@ func c08R4(c *Ctx) {
 		})
 		c.Check(ok, FuncName(st.Fn), p.InstrPos(st.Store), "connect-store", "a new connection channel is installed only while not connected", "messageOut is replaced under "+d.String()+": a live connection's channel could be overwritten")
 	}
+}
+
+func c08R5(c *Ctx) {
+	p := c.P
+	app := p.Named(modPath, "Application")
+	fState := p.Field(modPath, "stateMachine", "State")
+	sites := p.InvokeSites(app, "OnLogout")
+	if len(sites) == 0 {
+		c.Violation("", "-", "no-onlogout", "OnLogout is never invoked")
+		return
+	}
+	inc := p.incomingFn()
+	for _, site := range sites {
+		fn := site.Fn
+		name := FuncName(fn)
+		// calls that can re-enter inbound processing
+		var reentrant []ssa.CallInstruction
+		for _, cl := range Calls(fn) {
+			cal := cl.Common().StaticCallee()
+			if cal == nil || !p.InModule(cal) {
+				continue
+			}
+			if p.Reachable([]*ssa.Function{cal}, true)[inc] {
+				reentrant = append(reentrant, cl)
+			}
+		}
+		if len(reentrant) == 0 {
+			c.OK(name, p.Pos(fn.Pos()), "the disconnect handler cannot re-enter inbound processing")
+			continue
+		}
+		after := func(k, x ssa.Instruction) bool {
+			if k.Block() == x.Block() {
+				return instrIndex(k) < instrIndex(x)
+			}
+			return reaches(k.Block(), x.Block())
+		}
+		for _, k := range reentrant {
+			ok := !after(k, site.Call)
+			// state reads that feed the decision: loads of State and IsLoggedOn-like calls
+			ForEachInstr(fn, func(in ssa.Instruction) {
+				if u, isU := in.(*ssa.UnOp); isU && fieldAddrOf(u.X, fState) != nil && after(k, in) {
+					ok = false
+				}
+				if cl, isC := in.(ssa.CallInstruction); isC {
+					if n := callName(cl.Common()); (strings.HasSuffix(n, ".IsLoggedOn") || strings.HasSuffix(n, ".IsConnected")) && after(k, in) {
+						ok = false
+					}
+				}
+			})
+			c.Check(ok, name, p.InstrPos(k), "drain-after-decision", "OnLogout decided and sent before buffered inbound messages are drained",
+				"buffered inbound messages are drained (a call that can re-enter Incoming) before the state is read to decide OnLogout: a drained message that changes the state (e.g. the peer's Logout) makes the decision see the new state, and a logged-on period ends with no logout notification")
+		}
+	}
+}
+
+func c08R6(c *Ctx) {
+	p := c.P
+	it := p.Iface(modPath, "sessionState")
+	inSess := p.Named(modPath, "inSession")
+	n := 0
+	for _, T := range p.Implementations(it) {
+		if T == inSess {
+			continue
+		}
+		fn := p.MethodOf(T, "FixMsgIn")
+		if fn == nil || fn.Synthetic != "" || fn.Blocks == nil {
+			continue
+		}
+		// is this a logged-on state? (its IsLoggedOn returns true)
+		lo := p.MethodOf(T, "IsLoggedOn")
+		loggedOn := false
+		if lo != nil {
+			f := lo
+			// peel promotion wrappers: find the declared method's constant
+			for _, fnc := range p.Funcs {
+				if fnc.Name() == "IsLoggedOn" && fnc.Signature.Recv() != nil {
+					rt := namedOf(fnc.Signature.Recv().Type())
+					if rt != nil && embeds(T, rt) {
+						f = fnc
+					}
+				}
+			}
+			for _, b := range f.Blocks {
+				if r, ok := b.Instrs[len(b.Instrs)-1].(*ssa.Return); ok && len(r.Results) == 1 {
+					if bv, isB := p.Origin(r.Results[0]).ConstBoolVal(); isB && bv {
+						loggedOn = true
+					}
+				}
+			}
+		}
+		if !loggedOn {
+			continue
+		}
+		// delegates to the in-session handler?
+		var delegates []ssa.CallInstruction
+		for _, cl := range Calls(fn) {
+			cal := cl.Common().StaticCallee()
+			if cal != nil && cal.Name() == "FixMsgIn" && cal.Signature.Recv() != nil && types.Identical(cal.Signature.Recv().Type(), inSess) {
+				delegates = append(delegates, cl)
+			}
+		}
+		if len(delegates) == 0 {
+			continue
+		}
+		name := FuncName(fn)
+		for _, b := range fn.Blocks {
+			r, ok := b.Instrs[len(b.Instrs)-1].(*ssa.Return)
+			if !ok || len(r.Results) != 1 {
+				continue
+			}
+			mi, ok := r.Results[0].(*ssa.MakeInterface)
+			if !ok || !types.Identical(mi.X.Type(), T) {
+				continue
+			}
+			n++
+			d := p.ReachCond(b)
+			okG := d.Implies(func(a *Atom) bool {
+				if a.Rel != "" || !a.Val || a.B.Kind != "call" || a.B.Method == nil || a.B.Method.Name() != "IsLoggedOn" {
+					return false
+				}
+				return a.B.Recv != nil && a.B.Recv.Mentions(func(x *Org) bool {
+					return x.Kind == "call" && x.Callee != nil && x.Callee.Name() == "FixMsgIn"
+				})
+			})
+			c.Check(okG, name, p.InstrPos(r), "wrapper-keeps-logged-on", "returns itself only while the delegate's result is still logged on",
+				"the "+T.Obj().Name()+" state returns itself under "+d.String()+" without having established that the in-session handler's result is still logged on: after the engine sent its own Logout (or disconnected) the session would be put back into a logged-on state and queued application messages would be transmitted after the Logout")
+		}
+	}
+	if n == 0 {
+		c.Violation("", "-", "no-wrapper", "no logged-on state delegates to the in-session handler")
+	}
+}
+
+// embeds: named struct type T embeds (transitively) the named type E.
+func embeds(T, E *types.Named) bool {
+	if T == E {
+		return true
+	}
+	st, ok := T.Underlying().(*types.Struct)
+	if !ok {
+		return false
+	}
+	for i := 0; i < st.NumFields(); i++ {
+		f := st.Field(i)
+		if f.Embedded() {
+			if n := namedOf(f.Type()); n != nil && embeds(n, E) {
+				return true
+			}
+		}
+	}
+	return false
 }
